@@ -43,6 +43,23 @@ from . import vset as _vset  # noqa: E402
 VSET_ACTIVE = _vset.install(classes)
 
 
+class IntSub(int):
+    """an integer that is not exactly of type int (like enum.IntEnum members): a legal value wherever an int is documented"""
+
+    def __repr__(self):
+        return 'IntSub(%s)' % int.__repr__(self)
+
+    def __str__(self):
+        return int.__repr__(self)
+
+
+class StrSub(str):
+    """a string that is not exactly of type str: a legal value wherever a str is documented"""
+
+    def __repr__(self):
+        return 'StrSub(%s)' % str.__repr__(self)
+
+
 def namespace():
     """A namespace in which recipes (python expressions) are evaluated."""
     ns = {}
@@ -51,6 +68,8 @@ def namespace():
             if not name.startswith('_'):
                 ns[name] = getattr(mod, name)
     ns['Pregex'] = pre.Pregex
+    ns['IntSub'] = IntSub
+    ns['StrSub'] = StrSub
     ns['pre'] = pre
     ns['ex'] = exceptions
     for name in dir(exceptions):
